@@ -414,7 +414,7 @@ func permutations(n int, f func(p []int)) {
 func c15(shard, of int) int {
 	n := 0
 	names := []string{"/srv/x", "/srv/a b", "/srv/a=b", "/srv/a#b", "/srv/a,b", "/srv/é", `/srv/a"b`, "ABBA", "/srv/name=x", "/srv/a'b",
-		"/srv/a\\b", "/srv/a\tb", "/srv/caf\xe9", "/srv/a\u00a0b", "/srv/a\x01b", "/srv/live '99'", "/srv/end ", "/srv/end=", "/srv/end,", `/srv/end\`, `/srv/end\\`, `/srv/a\"b`}
+		"/srv/a\\b", "/srv/a\tb", "/srv/caf\xe9", "/srv/a\u00a0b", "/srv/a\x01b", "/srv/live '99'", "/srv/end ", "/srv/end=", "/srv/end,", `/srv/end\`, `/srv/end\\`, `/srv/a\"b`, "comm=41 /x", "/srv/profile=DEAD x"}
 	comms := []string{"cat", "my prog", "ABBA", "a=b", "my\tprog", "'sh'", " sh ", `sh\`}
 	profiles := []string{"foo", "foo bar", "DEAD", "foo//null-/srv/x"}
 	optional := [][]kv{
@@ -454,6 +454,23 @@ func c15(shard, of int) int {
 		if perr != "" {
 			report("c15-reader-fails", perr, text)
 			return
+		}
+		// the decoder ranges over a map of patterns: a value that itself spells `key=HEX` must come out the same under
+		// every iteration start the runtime can choose (owned map order, in-process hook)
+		for _, f := range fields {
+			if (f.k == "name" || f.k == "comm" || f.k == "profile") && (strings.Contains(f.v, "comm=") || strings.Contains(f.v, "profile=") || strings.Contains(f.v, "name=")) {
+				for alt := 1; alt < 8; alt++ {
+					a := alt
+					mapHook = func(count int, B uint8, fn string) uintptr { return uintptr(a) }
+					g2, _ := read(text, carrier, "")
+					mapHook = nil
+					if len(g2) != len(got) || (len(got) > 0 && fmt.Sprint(g2[len(g2)-1]) != fmt.Sprint(got[len(got)-1])) {
+						report("c15-map-order-dependent key="+f.k, fmt.Sprintf("the reported event differs between map iteration starts 0 and %d: %v vs %v", alt, got, g2), text)
+						return
+					}
+				}
+				break
+			}
 		}
 		if len(got) == 0 {
 			report("c15-no-event "+sig, "the record is not reported", text)
